@@ -38,6 +38,10 @@ struct PipePort {
     tx: Pipe,
     on_line: Option<Box<dyn FnMut()>>,
     settings: PortSettings,
+    /// bytes accepted per write() call (0 = everything offered)
+    max_write: usize,
+    /// each write() call blocks this long (a slow line)
+    write_delay: Duration,
 }
 
 impl Read for PipePort {
@@ -63,14 +67,18 @@ impl Read for PipePort {
 
 impl Write for PipePort {
     fn write(&mut self, buf: &[u8]) -> io::Result<usize> {
-        self.tx.borrow_mut().extend(buf.iter().copied());
+        let n = if self.max_write == 0 { buf.len() } else { buf.len().min(self.max_write) };
+        if !self.write_delay.is_zero() {
+            std::thread::sleep(self.write_delay);
+        }
+        self.tx.borrow_mut().extend(buf[..n].iter().copied());
         let has_line = self.tx.borrow().contains(&b'\n');
         if has_line {
             if let Some(f) = self.on_line.as_mut() {
                 f();
             }
         }
-        Ok(buf.len())
+        Ok(n)
     }
     fn flush(&mut self) -> io::Result<()> {
         Ok(())
@@ -140,6 +148,15 @@ pub struct PathCase {
     pub target: u16,
     pub sign_type: u8,
     pub ops: Vec<Op>,
+    /// the controller-side port accepts this many bytes per write() call (0 = everything)
+    #[serde(default)]
+    pub client_write_chunk: u8,
+    /// ... and each of its write() calls blocks this many milliseconds
+    #[serde(default)]
+    pub client_write_delay_ms: u8,
+    /// the bridge-side port accepts this many bytes per write() call (0 = everything)
+    #[serde(default)]
+    pub server_write_chunk: u8,
 }
 
 #[derive(Debug, Clone, PartialEq, Eq)]
@@ -219,7 +236,7 @@ pub fn check_path(c: &PathCase, st: &mut Stats) -> Result<(), String> {
     let vbus = Rc::new(RefCell::new(make_bus(&signs)));
     let to_server: Pipe = Rc::new(RefCell::new(VecDeque::new()));
     let to_client: Pipe = Rc::new(RefCell::new(VecDeque::new()));
-    let server_port = PipePort { rx: to_server.clone(), tx: to_client.clone(), on_line: None, settings: weird_settings() };
+    let server_port = PipePort { rx: to_server.clone(), tx: to_client.clone(), on_line: None, settings: weird_settings(), max_write: c.server_write_chunk as usize, write_delay: Duration::ZERO };
     let odk = Odk::try_new(server_port, SharedBus(vbus.clone())).map_err(|e| format!("Odk::try_new failed: {e}"))?;
     let odk = Rc::new(RefCell::new(odk));
     let odk_errors: Rc<RefCell<Vec<String>>> = Rc::new(RefCell::new(vec![]));
@@ -238,7 +255,7 @@ pub fn check_path(c: &PathCase, st: &mut Stats) -> Result<(), String> {
             }
         }
     };
-    let client_port = PipePort { rx: to_client.clone(), tx: to_server.clone(), on_line: Some(Box::new(pump)), settings: weird_settings() };
+    let client_port = PipePort { rx: to_client.clone(), tx: to_server.clone(), on_line: Some(Box::new(pump)), settings: weird_settings(), max_write: c.client_write_chunk as usize, write_delay: Duration::from_millis(if c.client_write_chunk == 0 { c.client_write_delay_ms as u64 } else { 0 }) };
     let sbus = SerialSignBus::try_new(client_port).map_err(|e| format!("SerialSignBus::try_new failed: {e}"))?;
     let serial = run_ops(Rc::new(RefCell::new(sbus)), c)?;
     let serial_obs = observe(&vbus.borrow(), n);
@@ -584,15 +601,16 @@ fn path_strategy() -> impl Strategy<Value = PathCase> {
                 1 => Just(Op::ShutDown),
                 1 => proptest::sample::select(vec![5u8, 4, 3, 10]).prop_map(Op::Reconfigure),
             ];
-            (Just(addrs), proptest::collection::vec(any::<bool>(), n), Just(target), Just(sign_type), proptest::collection::vec(op, 1..=8))
+            let chunk = || prop_oneof![6 => Just(0u8), 1 => 1u8..=8, 1 => Just(32u8), 1 => 9u8..=60];
+            (Just(addrs), proptest::collection::vec(any::<bool>(), n), Just(target), Just(sign_type), proptest::collection::vec(op, 1..=8), (chunk(), prop_oneof![12 => Just(0u8), 1 => Just(35u8)], chunk()))
         })
-        .prop_map(|(addrs, flips, target, sign_type, mut ops)| {
+        .prop_map(|(addrs, flips, target, sign_type, mut ops, (client_write_chunk, client_write_delay_ms, server_write_chunk))| {
             // most sequences start by configuring, otherwise nearly everything fails on both paths
             if !matches!(ops[0], Op::Configure | Op::ConfigureIfNeeded) && target != 0x0077 && ops.len() % 4 != 0 {
                 ops.insert(0, Op::Configure);
                 ops.truncate(8);
             }
-            PathCase { signs: addrs.into_iter().zip(flips).collect(), target, sign_type, ops }
+            PathCase { signs: addrs.into_iter().zip(flips).collect(), target, sign_type, ops, client_write_chunk, client_write_delay_ms, server_write_chunk }
         })
 }
 
